@@ -31,6 +31,10 @@ MUTANTS = {'n_normalised': ['path_no_escape_check'], 's_separators': ['path_no_b
            'g_string': ['string_appends_suffix']}
 
 
+def quick_tier(tier):
+    return tier == 'quick'
+
+
 def bounds(tier):
     return {'raw_string_length': '0..3 quick / 0..4 thorough (relpath pairs: |a| <= 2,|b| <= 2 quick; '
                                  '<= 3, <= 2 thorough)',
@@ -56,6 +60,12 @@ def obligations(tier, kf):
                 if n == 3 and flavor == 'posix':
                     for m in MUTANTS.get(fn, []):
                         obs.append(ob.mutant(m))
+    for flavor in ('posix', 'windows'):
+        for n in range(0, (2 if quick_tier(tier) else 3) + 1):
+            obs.append(Ob('n_escaping', dict(kf, N=n, flavor=flavor, root=n % 4), 900,
+                          desc='n_escaping %s, tail |t|==%d' % (flavor, n)))
+    ne = Ob('n_escaping', dict(kf, N=1, flavor='posix', root=0), 300)
+    obs += [ne.twin(), ne.mutant('path_escape_check_basename_only')]
     for base in (0, 1, 2):
         for n in range(0, nmax + 1):
             ob = Ob('b_base_path', dict(kf, N=n, flavor='posix', root=n % 4, base=base), T[n],
